@@ -7,6 +7,7 @@ P: duration._format: the emitted unit tokens decompose (days*86400+seconds, micr
 B: text level (re matching of the emitted tokens), render/parse over zones x transitions x precisions.
 """
 from .util import distinct_keys
+import math
 import datetime
 import random
 
@@ -164,8 +165,72 @@ def order_lemmas(repo):
             ('trichotomy: exactly one of <, ==, >', [], z3.And(z3.Or(lt, gt, eq), z3.Not(z3.And(lt, gt)), z3.Not(z3.And(lt, eq)), z3.Not(z3.And(gt, eq))))]
 
 
+def render_frame(repo):
+    """Frame condition of timestamp.render (and of the class method it calls): rendering observes the instant, it assigns nothing of it.
+    Decided on the AST of the real functions: stores to / deletions of an attribute or item of self / cls, setattr / delattr / object.__setattr__
+    on them, access to their __dict__, and calls of other methods of self (whose frame is not known) are counted; the obligation is that the count is 0."""
+    import ast
+    out = []
+    todo = ['render']
+    done = []
+    while todo:
+        name = todo.pop(0)
+        if name in done:
+            continue
+        done.append(name)
+        qual = 'timestamp.' + name
+        try:
+            mod, cls, fdef = repo.find_function('history/times.py', qual)
+        except Exception:
+            raise Unsupported('stale contract: %s (called while rendering) is not a method of timestamp' % qual)
+        recv = fdef.args.args[0].arg
+        writes = []
+        for n in ast.walk(fdef):
+            if isinstance(n, (ast.Attribute, ast.Subscript)) and isinstance(n.ctx, (ast.Store, ast.Del)):
+                base = n.value
+                while isinstance(base, (ast.Attribute, ast.Subscript)):
+                    base = base.value
+                if isinstance(base, ast.Name) and base.id == recv:
+                    writes.append('line %d: assigns %s' % (n.lineno - fdef.lineno, ast.unparse(n)))
+            elif isinstance(n, ast.Call):
+                f = n.func
+                fname = f.id if isinstance(f, ast.Name) else (f.attr if isinstance(f, ast.Attribute) else '')
+                if fname in ('setattr', 'delattr', '__setattr__', '__delattr__', '__setitem__', 'update', 'setdefault') and any(
+                        isinstance(a, ast.Name) and a.id == recv or (isinstance(a, ast.Attribute) and isinstance(a.value, ast.Name) and a.value.id == recv)
+                        for a in list(n.args) + ([f.value] if isinstance(f, ast.Attribute) else [])):
+                    writes.append('line %d: %s' % (n.lineno - fdef.lineno, ast.unparse(n)[:60]))
+                elif isinstance(f, ast.Attribute) and isinstance(f.value, ast.Name) and f.value.id == recv:
+                    todo.append(f.attr)               # a method of the same object: its frame is checked as well
+            elif isinstance(n, ast.Attribute) and n.attr == '__dict__' and isinstance(n.value, ast.Name) and n.value.id == recv:
+                writes.append('line %d: reaches %s.__dict__' % (n.lineno - fdef.lineno, recv))
+            elif isinstance(n, (ast.Global, ast.Nonlocal)):
+                writes.append('line %d: %s' % (n.lineno - fdef.lineno, ast.unparse(n)))
+        w = z3.Int('writes_in_%s' % name)
+        out.append(('%s assigns nothing of %s' % (qual, recv), [w == len(writes)], w == 0))
+    if len(out) < 2:
+        raise Unsupported('stale contract: render no longer goes through datetime_from_number')
+    return out
+
+
+def replay_render_frame(model, obligation):
+    from cpppo.history import times
+    tz = times.pytz.timezone('America/Edmonton')
+    for v in (1414915323.1225, 1000.0004, -1.25, 1700000000.987654):
+        for ms in (1, 2, 4, 5, 6, 0, False, True, 3):
+            for zone, tzd in ((None, None), (tz, None), (tz, False), (tz, True)):
+                ts = times.timestamp(v)
+                before = dict(vars(ts)) if hasattr(ts, '__dict__') else None
+                ts.render(tzinfo=zone, ms=ms, tzdetail=tzd)
+                fresh = times.timestamp(v)
+                if str(ts) != str(fresh) or ts.value != fresh.value or ts.render(ms=True) != fresh.render(ms=True):
+                    return dict(confirmed=True, function='cpppo.history.times.timestamp.render', input='timestamp(%r).render(%s, ms=%r, tzdetail=%r); str(ts)' % (v, zone, ms, tzd),
+                                observed='str() %r / render(ms=True) %r' % (str(ts), ts.render(ms=True)), required='%r: rendering does not change what the timestamp is or renders as' % str(fresh))
+    return dict(confirmed=False)
+
+
 def contracts(repo):
-    return [format_spec()] + cmp_specs() + [Custom('order', order_lemmas, note='over the contracts of __lt__/__gt__: lt := a + eps < b, gt := a - eps > b, eq := neither')]
+    return [format_spec()] + cmp_specs() + [Custom('render_frame', render_frame, replay=replay_render_frame,
+                                                   note='frame condition decided on the AST of the real timestamp.render / datetime_from_number: no store to self / cls')] + [Custom('order', order_lemmas, note='over the contracts of __lt__/__gt__: lt := a + eps < b, gt := a - eps > b, eq := neither')]
 
 
 # ------------------------------------------------------------------------------------------------ bounded
@@ -329,6 +394,39 @@ def bounded(tier, seed):
                     if 'timezone' in str(e).lower() and tzd:
                         continue
                     viol('timestamp %r zone %s' % (v, zn), 'raised %s: %s' % (type(e).__name__, e), 'renders and parses')
+    # every rendering form: any zone, numeric UTC offsets (tzdetail=False) parsed into any target zone, any sub-second precision; and a rendering observes
+    # the timestamp without changing it: str() / the ms UTC rendering afterwards are those of a fresh timestamp of the same value
+    fold = 1414285200                      # 2014-10-26 01:00:00 UTC: Europe/London and Europe/Lisbon fall back to UTC+00:00
+    render_zones = ['Europe/London', 'Europe/Lisbon', 'UTC', 'Africa/Abidjan', 'America/Edmonton', 'Asia/Kolkata', 'Australia/Lord_Howe', 'America/St_Johns', 'Pacific/Chatham']
+    parse_zones = [None, 'UTC', 'Europe/London', 'America/Edmonton', 'Asia/Kolkata', 'Pacific/Chatham']
+    if tier != 'quick':
+        render_zones += rng.sample(sorted(zoneinfo.available_timezones()), 25)
+    insts2 = [fold + m * 60 + f for m in (-90, -30, -1, 0, 1, 59, 150) for f in (0.0, 0.25, 0.999)] + [1399326141.999836, 1700000000.0005, -1000.001, 1404000000.5]
+    for rz in render_zones:
+        try:
+            rtz = times.pytz.timezone(rz)
+        except Exception:
+            continue
+        for v in insts2:
+            for ms in (True, False, 1, 6) if tier == 'quick' else (True, False, 0, 1, 2, 3, 4, 5, 6):
+                ev += 1
+                distinct.add(('numeric', rz, v, ms))
+                try:
+                    ts = times.timestamp(v)
+                    txt = ts.render(rtz, ms=ms, tzdetail=False)
+                    digits = 3 if ms is True else int(ms)
+                    want = round(v, digits) if digits else float(math.floor(v))
+                    if str(ts) != str(times.timestamp(v)) or ts.render(ms=True) != times.timestamp(v).render(ms=True):
+                        viol('timestamp(%r).render(%s, ms=%r, tzdetail=False) then str()' % (v, rz, ms), 'str() gives %r, render(ms=True) %r' % (str(ts), ts.render(ms=True)),
+                             'the millisecond UTC rendering %r of the unchanged instant' % str(times.timestamp(v)))
+                    for pz in parse_zones + [rz]:
+                        back = times.timestamp(times.parse_datetime(txt, zone=pz))
+                        if abs(back.value - want) > 0.00051:
+                            viol('timestamp %r rendered in %s with numeric offset (ms=%r), parsed into zone %r' % (v, rz, ms, pz), '%r -> %r' % (txt, back.value),
+                                 'the same instant %r: the text carries its own UTC offset' % want)
+                            break
+                except Exception as e:
+                    viol('timestamp %r rendered in %s with numeric offset (ms=%r)' % (v, rz, ms), 'raised %s: %s' % (type(e).__name__, e), 'renders and parses')
     # comparisons vs rendering
     for _ in range(300 if tier == 'quick' else 5000):
         a = rng.choice(base_instants) + rng.choice([0, 0.0004, 0.0005, 0.0006, 0.001, 0.0011, 0.002, -0.001, 0.00099])
